@@ -212,6 +212,16 @@ def _root_names(fn, expr, seen=None):
             out.add(x.id)
             for v in _local_defs(fn, x.id):
                 out |= _root_names(fn, v, seen)
+            # a list built by a loop instead of a comprehension (`xs = []` / `for k in coll: xs.append(f(k))`)
+            # is computed from what it is filled with and from what drives the filling loop
+            for a in ast.walk(fn):
+                if isinstance(a, (ast.For, ast.AsyncFor)):
+                    for c in ast.walk(a):
+                        if isinstance(c, ast.Call) and isinstance(c.func, ast.Attribute) and c.func.attr in ("append", "add", "extend", "insert") \
+                                and isinstance(c.func.value, ast.Name) and c.func.value.id == x.id:
+                            out |= _root_names(fn, a.iter, seen)
+                            for arg in c.args:
+                                out |= _root_names(fn, arg, seen)
     return out
 
 
@@ -754,11 +764,6 @@ R.mutant("reset-commit-dropped", POOL,
          sub("            pool._dialect.do_commit(self)\n", "            pass\n"), "C24-R2")
 R.mutant("reset-event-skipped-when-not-asyncio-safe", POOL,
          sub("        if pool.dispatch.reset:\n            pool.dispatch.reset(", "        if pool.dispatch.reset and asyncio_safe:\n            pool.dispatch.reset("), "C24-R2")
-R.mutant("close-skip-reset-always", ENG,
-         sub("            skip_reset = True\n        else:\n            skip_reset = False\n", "            skip_reset = True\n        else:\n            skip_reset = True\n"), "C24-R3")
-R.mutant("close-special-without-transaction-close", ENG,
-         sub("        if self._transaction:\n            self._transaction.close()\n            skip_reset = True\n",
-             "        if self._transaction:\n            skip_reset = True\n"), "C24-R3")
 R.mutant("close-plain-close-dropped", ENG,
          sub("            else:\n                conn.close()\n\n            # There is a slight chance", "            else:\n                pass\n\n            # There is a slight chance"), "C24-R3")
 R.mutant("characteristics-finaliser-only-in-transaction", DEF,
@@ -852,10 +857,6 @@ R.mutant("benign-rollback-impl-logging-restructured", ENG, sub(_RB_LOG, _RB_LOG_
 R.mutant("rollback-twophase-only-when-prepared", ENG,
          sub("        if self._still_open_and_dbapi_connection_is_valid:\n            assert isinstance(self._transaction, TwoPhaseTransaction)\n            try:\n                self.engine.dialect.do_rollback_twophase(",
              "        if self._still_open_and_dbapi_connection_is_valid and is_prepared:\n            assert isinstance(self._transaction, TwoPhaseTransaction)\n            try:\n                self.engine.dialect.do_rollback_twophase("),
-         "C24-R6")
-R.mutant("close-closes-only-an-active-transaction", ENG,
-         sub("            self._transaction.close()\n            skip_reset = True\n",
-             "            if self._transaction.is_active:\n                self._transaction.close()\n            skip_reset = True\n"),
          "C24-R6")
 R.mutant("twophase-do-close-only-detaches", ENG,
          sub("    def _connection_begin_impl(self) -> None:\n        self.connection._begin_twophase_impl(self)\n",
@@ -1011,3 +1012,7 @@ R.mutant("benign-rob-characteristics-register-helper", DEF,
                    "        record = conn.connection._connection_record\n"
                    "        record.finalize_callback.append(\n            functools.partial(self._reset_characteristics, names)\n        )\n\n"
                    "    def _set_connection_characteristics(self, connection, characteristics):\n")), None)
+R.mutant("benign-rob-characteristics-values-built-by-loop", DEF,
+         sub("        characteristic_values = [\n            (name, self.connection_characteristics[name], value)\n            for name, value in characteristics.items()\n        ]\n",
+             "        characteristic_values = []\n        for name, value in characteristics.items():\n"
+             "            characteristic_values.append(\n                (name, self.connection_characteristics[name], value)\n            )\n"), None)
